@@ -80,6 +80,12 @@ class ExprMixin:
                 return ast.literal_eval(cv)
             except Exception:
                 pass
+            if isinstance(cv, ast.Subscript) and isinstance(cv.value, ast.Name) and cv.value.id == "Literal":
+                try:
+                    v = ast.literal_eval(cv.slice)
+                    return tuple(v) if isinstance(v, tuple) else (v,)
+                except Exception:
+                    pass
             if name in self.models.get("__consts__", {}):
                 return self.models["__consts__"][name]
         if name in self.models.get("__consts__", {}):
@@ -286,9 +292,10 @@ class ExprMixin:
                 r = r * ra
             return [(Sym(r, "real"), st)]
         if isinstance(op, ast.Mod):
-            # real modulo, positive modulus: x - m*k with 0 <= . < m
+            # real modulo, positive modulus: x - m*k with 0 <= . < m; k is the (unique) integer quotient, a function of (x, m)
             self.oblige(st, f"safe:mod-positive@{self.ntag(node)}", rb > 0, "safety")
-            k = fresh("k", I)
+            from .core import uf, R as _R, I as _I
+            k = uf("RMODK", _R, _R, _I)(ra, rb)
             r = ra - rb * to_real(k)
             st.assume(r >= 0, r < rb)
             return [(Sym(r, "real"), st)]
@@ -297,6 +304,8 @@ class ExprMixin:
     # ------------------------------------------------------------ comparisons
     def ev_Compare(self, e, st):
         def f(vs, s):
+            if len(e.ops) == 1 and any(isinstance(x, (SeqV, ListLoc)) for x in vs) and not isinstance(e.ops[0], (ast.In, ast.NotIn, ast.Is, ast.IsNot)):
+                return [(self.array_compare(e.ops[0], vs[0], vs[1], s, e), s)]
             conds = []
             for i, op in enumerate(e.ops):
                 conds.append(self.compare(op, vs[i], vs[i + 1], s, e))
@@ -305,6 +314,25 @@ class ExprMixin:
             zs = [z3.BoolVal(c) if isinstance(c, bool) else c for c in conds]
             return [(Sym(z3.And(*zs) if len(zs) > 1 else zs[0], "bool"), s)]
         return self.bind(self.eval_list([e.left] + e.comparators, st), f)
+
+    def array_compare(self, op, a, b, st, node=None):
+        """numpy elementwise comparison -> boolean array (A-NUMPY; under A-REAL no NaN exists)."""
+        j = z3.Int("j!ac")
+
+        def el(x):
+            if isinstance(x, (SeqV, ListLoc)):
+                sv = self.as_seq(x, st)
+                return sv, z3.Select(sv.arr, j)
+            x = self.unopt(x, st, node)
+            t, k = znum(x)
+            return None, t
+        sa, ta = el(a)
+        sb, tb = el(b)
+        n = (sa or sb).n
+        if z3.is_int(ta) != z3.is_int(tb):
+            ta, tb = to_real(ta), to_real(tb)
+        body = {ast.Lt: ta < tb, ast.LtE: ta <= tb, ast.Gt: ta > tb, ast.GtE: ta >= tb, ast.Eq: ta == tb, ast.NotEq: ta != tb}[type(op)]
+        return SeqV(n, z3.Lambda([j], body), "bool")
 
     def compare(self, op, a, b, st, node=None):
         """-> python bool or z3 Bool"""
@@ -430,6 +458,11 @@ class ExprMixin:
             return z3.Or(*[z3.BoolVal(c) if isinstance(c, bool) else c for c in cs])
         if isinstance(cont, Sym) and cont.ty == "qset" and isinstance(x, Sym) and x.ty == "qid":
             return z3.Select(cont.t, x.t)
+        if isinstance(cont, (ListLoc, SeqV)):
+            sv = self.as_seq(cont, st)
+            j = z3.Int("j!in")
+            xt = self.coerce(x, sv.ety)
+            return z3.Exists([j], z3.And(0 <= j, j < sv.n, z3.Select(sv.arr, j) == xt))
         if isinstance(cont, MapLoc):
             return z3.Select(cont.dom(st.heap), self.coerce(x, cont.kty))
         if isinstance(cont, PyDict):
@@ -450,11 +483,21 @@ class ExprMixin:
     def getattr(self, v, attr, st, node=None):
         if isinstance(v, FuncRef):
             if v.kind == "module":
+                if (v.qual, attr) in (("np", "pi"), ("math", "pi")):
+                    from .core import PI
+                    return [(Sym(PI, "real"), st)]
                 return [(FuncRef(f"{v.qual}.{attr}", "modattr"), st)]
             if v.kind == "modattr":
                 return [(FuncRef(f"{v.qual}.{attr}", "modattr"), st)]
             if v.kind == "class":
                 return [(FuncRef(f"{v.qual}.{attr}", "classattr"), st)]
+        from .models import SuperProxy
+        if isinstance(v, SuperProxy):
+            parents = self.src.bases.get(v.cls, [])
+            for par in parents:
+                if self.src.find_method(par, attr) is not None:
+                    return [(BoundMethod(v.selfv, par, attr), st)]
+            raise OutOfSubset(f"super().{attr}", node)
         if isinstance(v, OptV):
             v = self.unopt(v, st, node)
         if isinstance(v, SlotTy):
@@ -635,8 +678,52 @@ class ExprMixin:
                     else:
                         out.append((PyList(acc, "list"), s1))
                 return out
+            if kind in ("list", "set") and not g.ifs:
+                return self.sym_comprehension(e, g, it, s, kind)
             return [(SymComp(e, it, dict(s.env), kind), s)]
         return self.bind(self.eval(g.iter, st), f)
+
+    def sym_comprehension(self, e, g, it, st, kind):
+        """[f(x) for x in symbolic-iterable]: f evaluated once on a generic element (must be single-path), then
+        generalised: the result is the sequence j -> f(elem(j)) (facts about f's evaluation hold for every j)."""
+        from .models import GenTerm, _fresh_consts_introduced
+        dom = self.iter_domain(it, st, e)
+        _, n, elem = dom
+        j = fresh("j", I)
+        probe = st.copy()
+        probe.assume(j >= 0, j < n)
+        base = len(probe.pc)
+        self.assign_target(g.target, elem(j), probe, e)
+        res = self.eval(e.elt, probe)
+        normal = [(v, s2) for v, s2 in res if not isinstance(v, Exc)]
+        for v, s2 in res:
+            if isinstance(v, Exc):   # a raising element: only allowed if unreachable
+                self.oblige(s2, f"comprehension-element-cannot-raise:{v.name}@{self.ntag(e)}", z3.BoolVal(False), "safety")
+        if len(normal) != 1:
+            raise OutOfSubset("comprehension body over a symbolic iterable is not single-path", e)
+        v, s_after = normal[0]
+        if not isinstance(v, Sym):
+            t, k = znum(v)
+            v = Sym(t, k)
+        new_pc = s_after.pc[base:]
+        fv = [c for c in _fresh_consts_introduced(new_pc + [v.t], st) if not c.eq(j)]
+        gt = GenTerm(j, v.t, new_pc, fv)
+        jj = z3.Int("j!sc")
+        val, facts = gt.instance(jj)
+        if facts:
+            st.assume(z3.ForAll([jj], z3.Implies(z3.And(jj >= 0, jj < n), z3.And(*facts))), name="comprehension-facts")
+        arr = z3.Lambda([jj], val)
+        seq = SeqV(n, arr, v.ty)
+        if kind == "list":
+            return [(seq, st)]
+        return [(ImgSet(seq), st)]
+
+
+class ImgSet:
+    """{f(x) for x in S}: the set of values of a symbolic sequence (only len()==1 tests, pop() and truthiness are modelled)."""
+
+    def __init__(self, seq):
+        self.seq = seq
 
 
 class SliceV:
